@@ -31,13 +31,14 @@ LEVEL_TEXT = (
     'parameters from the same object, saturating integer conversion, channel '
     'axis agreement. The half-step / one-step numeric error bound itself is '
     'not decided.'
+    " Tables with the exact array model: a constant stored quantized carries its data whoever supplied the parameters; end to end on small weights every stored code is in range and within half a step of the weight along the kernel's channel dimension."
 )
 LEVEL_NOTE = (
     'Trusted: O7 (int4: two values per byte, element 2i in the low nibble), '
     'numpy slicing/bit operations named as such. Not decided: element-wise '
     'error bound.'
 )
-TECHNIQUE = 'ladder agreement (exhaustive) + expression-shape / origin rules on ast (static)'
+TECHNIQUE = 'ladder agreement (exhaustive) + expression-shape / origin rules on ast + exact-array tables of the constant path (abstract interpretation over a finite lattice) (static)'
 
 QTENS = shared.QTENS
 FCAST = shared.FCAST
